@@ -620,6 +620,7 @@ def check_C11(run):
         shutil.rmtree(d, ignore_errors=True)
     c11_concurrent_writer(run)
     c11_terminal_copy(run)
+    c14_linksz_sweep(run)          # file parts of every size near a power of two through the real encrypted link (shared with C14)
     # L2 relay: sources that grow / shrink between listing and read
     rng = run.rng
     scs = []
@@ -1520,6 +1521,32 @@ def c14_silent_link(run, seconds):
         sb.close()
 
 
+def c14_linksz_sweep(run):
+    thorough = run.tier == 'thorough'
+    key = '%032x' % run.rng.getrandbits(128)
+    # payload sizes through the real encrypted link, both directions: around every power of two (any buffer that grows, or any
+    # off-by-a-tag in its size, bites in a window a few bytes wide) and the largest chunk itself
+    maxc = (run.extract_status.get('constants', {}) or {}).get('maxChunk') or 4 * 1024 * 1024
+    sz = [0, 1, 2, 15, 16, 17, 100] + list(range(2 ** 12 - 40, 2 ** 12 + 9, 4)) + list(range(2 ** 16 - 48, 2 ** 16 + 9))
+    for k in ((13, 14, 15, 17, 18, 19) if not thorough else range(13, 23)):
+        sz += list(range(2 ** k - 72, 2 ** k + 9, 8 if not thorough else 4))
+    sz += [maxc - 1, maxc] if not thorough else [maxc - 17, maxc - 16, maxc - 1, maxc]
+    groups = [sz[i:i + 60] for i in range(0, len(sz), 60)]
+    glines = [f'linksz {key} 120000 {len(g)} ' + ' '.join(map(str, g)) for g in groups]
+    for g, (ans, _) in zip(groups, C.run_harness(glines, timeout=1800)):
+        for x in g: run.case(('linksz', x), x >= 4096, sample=None)
+        run.count('tcp-link:sized-payloads', len(g)); run.cov['traces_validated_against_impl'] += len(g)
+        want = f'toDoer={len(g)} toBoss={len(g)} of={len(g)}'
+        if ans != want:
+            import re as _re
+            m = _re.match(r'toDoer=(\d+) toBoss=(\d+)', ans)
+            first = g[min(int(m.group(1)), int(m.group(2)))] if m and min(int(m.group(1)), int(m.group(2))) < len(g) else None
+            run.violation(dict(kind='oracle-failed-on-implementation', oracle='every payload size from empty to the largest chunk crosses the encrypted link intact, exactly once, in order (both directions)',
+                               layer='link', payload_sizes=g, impl=ans, want=want, first_payload_size_not_delivered=first))
+            break
+
+
+
 def c14_small_capacity_syncs(run):
     """L4: whole syncs through the real channels with a tiny capacity (override hook), so that every sender is held back again and again
     while the boss consumes with try_recv / select: everything must arrive (destination == source) and the run must end"""
@@ -1633,26 +1660,7 @@ def check_C14(run):
             run.violation(dict(kind='oracle-failed-on-implementation', oracle='an honest TCP link delivers everything exactly once in order, wherever the byte stream is segmented', layer='link', request_line=l, impl=ans, want=want))
             break
 
-    # payload sizes through the real encrypted link, both directions: around every power of two (any buffer that grows, or any
-    # off-by-a-tag in its size, bites in a window a few bytes wide) and the largest chunk itself
-    maxc = (run.extract_status.get('constants', {}) or {}).get('maxChunk') or 4 * 1024 * 1024
-    sz = [0, 1, 2, 15, 16, 17, 100] + list(range(2 ** 12 - 40, 2 ** 12 + 9, 4)) + list(range(2 ** 16 - 48, 2 ** 16 + 9))
-    for k in ((13, 14, 15, 17, 18, 19) if not thorough else range(13, 23)):
-        sz += list(range(2 ** k - 72, 2 ** k + 9, 8 if not thorough else 4))
-    sz += [maxc - 1, maxc] if not thorough else [maxc - 17, maxc - 16, maxc - 1, maxc]
-    groups = [sz[i:i + 60] for i in range(0, len(sz), 60)]
-    glines = [f'linksz {key} 120000 {len(g)} ' + ' '.join(map(str, g)) for g in groups]
-    for g, (ans, _) in zip(groups, C.run_harness(glines, timeout=1800)):
-        for x in g: run.case(('linksz', x), x >= 4096, sample=None)
-        run.count('tcp-link:sized-payloads', len(g)); run.cov['traces_validated_against_impl'] += len(g)
-        want = f'toDoer={len(g)} toBoss={len(g)} of={len(g)}'
-        if ans != want:
-            import re as _re
-            m = _re.match(r'toDoer=(\d+) toBoss=(\d+)', ans)
-            first = g[min(int(m.group(1)), int(m.group(2)))] if m and min(int(m.group(1)), int(m.group(2))) < len(g) else None
-            run.violation(dict(kind='oracle-failed-on-implementation', oracle='every payload size from empty to the largest chunk crosses the encrypted link intact, exactly once, in order (both directions)',
-                               layer='link', payload_sizes=g, impl=ans, want=want, first_payload_size_not_delivered=first))
-            break
+    c14_linksz_sweep(run)
 
     c14_small_capacity_syncs(run)
     # socket options (time-outs, non-blocking mode): none in the unchanged source (extracted; obligation C14_link_socket_plain).  If some appear,
@@ -2195,20 +2203,25 @@ def check_C05(run):
     # L4: a dry run changes nothing, not even missing ancestors
     sb = l4.Sandbox()
     try:
-        for case in range(6 if not thorough else 60):
+        for case in range(20 if not thorough else 120):
             base = os.path.join(sb.dir, f'd{case}'); os.makedirs(base)
             src, dst = os.path.join(base, 'src'), os.path.join(base, 'a/b/dst' if case % 2 else 'dst')
             l3.make_tree(src, [('', 'D'), ('f', 'F', b'x' * rng.randint(0, 9000), 2 * 10**18), ('d', 'D'), ('d/g', 'F', b'g', 2 * 10**18), ('l', 'L', 'f')])
-            if case % 2 == 0:
+            if case % 2 == 0 or case >= 10:
                 l3.make_tree(dst, [('', 'D'), ('f', 'F', b'old', 10**18), ('gone', 'D'), ('gone/x', 'F', b'x', 10**18), ('d', 'F', b'file-not-folder', 10**18)])
             before = l3.snapshot(base)
-            r = l4.run_cli([src + '/', dst + '/', '--dry-run', '--dest-file-newer', 'overwrite'], env=sb.env(), timeout=60)
+            # every way of turning the output up or down: what is printed must not decide what is done
+            OUT = [([], {}), (['--quiet'], {}), (['-q', '--no-progress'], {}), (['--verbose'], {}), (['--stats'], {}), (['--no-progress', '--stats'], {}), ([], {'RUST_LOG': 'error'}), ([], {'RUST_LOG': 'off'}),
+                   ([], {'RUST_LOG': 'trace'}), (['--quiet'], {'RUST_LOG': 'warn'})]
+            extra, envx = OUT[case % len(OUT)]
+            r = l4.run_cli([src + '/', dst + '/', '--dry-run', '--dest-file-newer', 'overwrite'] + extra, env=sb.env(envx), timeout=60)
             after = l3.snapshot(base)
-            run.case(('l4-dry', case), True, sample=dict(layer='L4', rc=r['rc'], would_lines=r['err'].count('Would ') + r['out'].count('Would ')))
-            run.count('l4-dry-run')
+            run.case(('l4-dry', case, tuple(extra), tuple(envx.items())), True, sample=dict(layer='L4', rc=r['rc'], flags=extra, env=envx, would_lines=r['err'].count('Would ') + r['out'].count('Would ')))
+            run.count('l4-dry-run:' + (' '.join(extra) or '-') + (':' + ','.join(f'{k}={v}' for k, v in envx.items()) if envx else ''))
             if before != after or r['rc'] != 0:
-                run.violation(dict(kind='oracle-failed-on-implementation', oracle='--dry-run changes nothing (missing ancestors included)', layer='L4', rc=r['rc'],
+                run.violation(dict(kind='oracle-failed-on-implementation', oracle='--dry-run changes nothing (missing ancestors included), whatever the verbosity', layer='L4', rc=r['rc'], flags=extra, env=envx,
                                    changed=[p.decode(errors='replace') for p in set(before) | set(after) if before.get(p) != after.get(p)], stderr=r['err'][-500:]))
+                break
     finally:
         sb.close()
     run.cov['trusted_base'] = C.GLOBAL_TRUST + ['the prediction theorems are per loop / per entry (C05_prediction_deletes, C05_prediction_copy_entry); the whole-run statement is carried by the paired L2 runs']
@@ -2784,6 +2797,37 @@ def check_C18(run):
                 if why and len(fails) < 3:
                     fails.append(dict(layer='L4', why=why, position=pos, string=hs, args=args, rc=r['rc'], stderr=r['err'][-800:], tree='src/{f,\u00e9}'))
                 shutil.rmtree(dst, ignore_errors=True)
+        # every class of modification time x every way of running: files to copy, to overwrite and to delete dated before 1970, at the epoch,
+        # a second / a day / ten years ahead of the clock, at the end of the file system's range - listed, described in dry-run lines, aged in
+        # statistics, compared
+        import time as _tm
+        now_ns = _tm.time_ns()
+        TIMES_ = [('pre-1970', -86400 * 10**9), ('epoch', 0), ('one-second-ahead', now_ns + 10**9), ('one-day-ahead', now_ns + 86400 * 10**9), ('ten-years-ahead', now_ns + 315360000 * 10**9),
+                  ('year-2400', 13569465600 * 10**9), ('now', now_ns)]
+        MODES_ = [[], ['--dry-run'], ['--dry-run', '--stats'], ['--dry-run', '--verbose'], ['--dry-run', '--quiet'], ['--stats'], ['--verbose'], ['--quiet'], ['--no-progress']]
+        stop_ = False
+        for tname, tns in TIMES_:
+            for mode_ in (MODES_ if thorough or tname not in ('now', 'epoch') else MODES_[:4]):
+                base = os.path.join(sb.dir, 'tm'); shutil.rmtree(base, ignore_errors=True)
+                src, dst = base + '/src', base + '/dst'
+                try:
+                    l3.make_tree(src, [('', 'D'), ('new', 'F', b'n', tns), ('changed', 'F', b'src version', tns), ('same', 'F', b's', tns), ('d', 'D'), ('d/inner', 'F', b'i', tns)])
+                    l3.make_tree(dst, [('', 'D'), ('changed', 'F', b'dst', 10**18), ('same', 'F', b's', tns), ('old', 'F', b'o', tns), ('oldd', 'D'), ('oldd/x', 'F', b'x', tns)])
+                except (OSError, OverflowError):
+                    run.count(f'time-mode:{tname}:host-cannot-express'); break
+                r = l4.run_cli([src + '/', dst + '/', '--all-destructive-behaviour', 'proceed'] + mode_, env=sb.env({'RJRSSYNC_TEST_PROMPT_RESPONSE': ''}), timeout=60, cwd=base)
+                run.case(('time-mode', tname, tuple(mode_)), True, sample=dict(layer='L4', file_times=tname, flags=mode_, rc=r['rc']) if not mode_ else None)
+                run.count(f'time-mode:{tname}:rc={r["rc"]}')
+                why = None
+                if r['timeout']: why = 'time-out'
+                elif r['rc'] not in (0, 2, 10, 11, 12, 18, 19): why = f'exit status {r["rc"]}' + (' (signal)' if r['rc'] is not None and r['rc'] < 0 else '')
+                elif 'panicked at' in r['err']: why = 'panic message'
+                elif r['rc'] != 0 and not (r['err'].strip() or r['out'].strip()) and '--quiet' not in mode_: why = 'failure without a message'
+                if why:
+                    fails.append(dict(layer='L4', why=why, args=['<src>/', '<dst>/', '--all-destructive-behaviour', 'proceed'] + mode_, rc=r['rc'], stderr=r['err'][-700:],
+                                      tree=f'source files new / changed / same / d/inner and destination files changed / same / old / oldd/x, all dated {tname} ({tns} ns)'))
+                    stop_ = True; break
+            if stop_: break
         # file lengths near the top of the 64-bit range (sparse files; only where the host has a file system that can hold them: tmpfs, xfs, btrfs):
         # listing them, summing them for the statistics and the progress bar, finding them up to date, deleting them — never reading them
         huge_root = None
